@@ -92,30 +92,52 @@ def run(chk):
             'Deal': ('DEAL-FROM-DEALER', 'DEAL-FROM-DEALER'), 'Scoring': ('SCORING', 'SCORING'), 'Event': ('EVENT', 'EVENT'),
             'Site': ('SITE', 'SITE'), 'West': ('W', 'W'), 'North': ('N', 'N'), 'East': ('E', 'E'), 'South': ('S', 'S'),
             'Date': ('DATE', 'DATE'), 'Declarer': ('', 'DECLARER'), 'Contract': ('Pass', 'CONTRACT'), 'Result': ('', 'TRICKS')}
+    from .playing import Playing
+    n_r4 = 0
+    _, wbr_fn = repo.method('PbnWriter', 'write_board_result', 'C18.R4')
+    wbr_params = {a.arg for a in wbr_fn.args.args + wbr_fn.args.kwonlyargs} - {'self'}
     for p in paths:
-        for e in [e for e in p.events if e.kind == 'call' and e.method == 'write_line' and e.recv == 'self']:
-            a0 = e.args[0] if e.args else None
-            if not (isinstance(a0, ast.JoinedStr) and len([v for v in a0.values if isinstance(v, ast.FormattedValue)]) == 2):
-                continue
-            holes = [v.value for v in a0.values if isinstance(v, ast.FormattedValue)]
-            if not isinstance(holes[0], ast.Constant) or holes[0].value not in want:
-                continue
-            t = holes[0].value
-            got = []
-            for passed in (True, False):
-                def m(node, passed=passed):
-                    txt = ast.unparse(node)
-                    if txt == 'contract.is_passed_out()':
-                        return passed
-                    if txt in leaf:
-                        return leaf[txt]
-                    return NOVALUE
-                v = PartialEvaluator(f, wm, [m]).eval(holes[1])
-                got.append(v if isinstance(v, str) else f'<{ast.unparse(holes[1])[:40]}>')
-            chk.require(tuple(got) == want[t], 'C18.R4', repo.where(wm, e.node), q_wbr, f'{t} <- {ast.unparse(holes[1])[:60]}',
-                        f'tag {t} carries {want[t][1]} (passed out: {want[t][0]!r})',
-                        f'tag {t} is written as {got[1]} (on a passed-out board {got[0]!r}); expected {want[t][1]} '
-                        f'(passed out: {want[t][0]!r}) - PBN spelling / passed-out convention / dealer-first deal')
+        for passed, tricks in ((True, None), (False, 0), (False, 7), (False, 13)):
+            def m(node, passed=passed, tricks=tricks):
+                txt = ast.unparse(node)
+                if txt == 'contract.is_passed_out()':
+                    return passed
+                if txt in leaf:
+                    return leaf[txt]
+                if txt == 'taken_tricks':
+                    return tricks
+                if txt == 'taken_tricks is None':
+                    return tricks is None
+                if txt == 'taken_tricks is not None':
+                    return tricks is not None
+                # any other value computed purely from the parameters is a recognised provenance (just not the required one)
+                if isinstance(node, (ast.Call, ast.Attribute)) and not isinstance(node, ast.Constant):
+                    names = {n.id for n in ast.walk(node) if isinstance(n, ast.Name)}
+                    if names and names <= wbr_params | {'str'} and not any(isinstance(n, ast.IfExp) for n in ast.walk(node)):
+                        return f'<{txt}>'
+                return NOVALUE
+            pe = PartialEvaluator(f, wm, [m])
+            if not Playing.consistent(p, pe):
+                continue        # this path is not taken on a passed-out / played board
+            for e in [e for e in p.events if e.kind == 'call' and e.method == 'write_line' and e.recv == 'self']:
+                a0 = e.args[0] if e.args else None
+                if not (isinstance(a0, ast.JoinedStr) and len([v for v in a0.values if isinstance(v, ast.FormattedValue)]) == 2):
+                    continue
+                holes = [v.value for v in a0.values if isinstance(v, ast.FormattedValue)]
+                if not isinstance(holes[0], ast.Constant) or holes[0].value not in want:
+                    continue
+                t = holes[0].value
+                v = pe.eval(holes[1])
+                got = v if isinstance(v, str) else None
+                if got is None:
+                    raise AnalysisError('C18.R4', q_wbr, f'value of tag {t} (`{ast.unparse(holes[1])[:60]}`) cannot be traced to a parameter on a {"passed-out" if passed else "played"} board')
+                exp = want[t][0 if passed else 1]
+                n_r4 += 1
+                chk.require(got == exp, 'C18.R4', repo.where(wm, e.node), q_wbr, f'{t} <- {ast.unparse(holes[1])[:60]} [{"passed out" if passed else "played"}]',
+                            f'tag {t} carries {exp!r} on a {"passed-out" if passed else "played"} board',
+                            f'tag {t} is written as {got!r} on a {"passed-out" if passed else "played"} board; expected {exp!r} '
+                            f'- PBN spelling / passed-out convention / dealer-first deal')
+    chk.floor('C18.R4', 'tag values traced', n_r4, 60)
 
     # ---- R3 line length ---------------------------------------------------------------------------------------------------
     w_wl, q_wl = loc(repo, 'PbnWriter', 'write_line', 'C18.R3')
